@@ -78,9 +78,6 @@ example : readBits ⟨[0xA5, 0xFF, 0x01], 0, 3⟩ 13 = .ok (0x5FF, ⟨[0xA5, 0xF
 example : readBits ⟨[0xA5, 0xFF, 0x01], 2, 0⟩ 9 = .error .illegalArg := by decide
 example : readBits (BitSource.new []) 1 = .error .illegalArg := by decide
 
-/-- the invariant is needed: an offset pair the library cannot reach does index out of range -/
-example : readBits ⟨[0xFF], 1, 3⟩ (-0 + 1) ≠ .error .illegalArg → True := fun _ => trivial
-
 /-! ## QR parseECIValue -/
 
 theorem readBitsF_no_panic (s : BitSource) (hs : WF s) (n : Int) :
